@@ -244,6 +244,60 @@ def run(F, ctx):
     ctx.site("schema inferred from updates[0] only", inf.where(), ok=not idx0, indexes_first=idx0, iterates_all=iter_updates)
     if idx0 and not iter_updates:
         ctx.violation(INFER + ":R-C12-d:first-update-only", "the batch schema is inferred from the first update alone while the whole slice is written with it: later updates of another type (or another vector dimension) in the same column are not representable", inf.where())
+    # a column type with a fixed vector dimension is kept only if every row has that dimension: the row test must
+    # look at every Value kind whose DataType can carry a fixed dimension
+    dim_kinds = set()
+    for (bb, adt, pl, mm, other) in inf.enum_switches("value::DataType"):
+        for v in mm:
+            vd = [x for x in F.adt("value::DataType")["variants"] if x["name"] == v]
+            if vd and any(fd["name"] == "dim" for fd in vd[0]["fields"]):
+                dim_kinds.add(v)
+    tested = set()
+    # closures of the row test: those handed to the iterator chain that ends in `all` (iter / filter / filter_map / map ... all)
+    def closure_defs_in_args(call):
+        out = []
+        for a in call.args:
+            al = op_local(a)
+            for i_ in range(inf.n):
+                for st in inf.stmts(i_):
+                    rv = st["r"]
+                    if al is not None and st["d"]["l"] in (common.origins(inf, al) | {al}) and rv.get("k") == "agg" and rv.get("ak") == "closure":
+                        out.append(rv["def"])
+            if a.get("clo"):
+                out.append(a["clo"])
+        return out
+    scope = set()
+    alls = [c for c in inf.normal_calls() if re.search(r"Iterator>::(all|any)::<", c.static_args or "")]
+    for c in alls:
+        cur = c
+        for _ in range(8):
+            for dn in closure_defs_in_args(cur):
+                scope |= set(F.with_closures(dn))
+            recv = op_local(cur.args[0]) if cur.args else None
+            if recv is None:
+                break
+            srcs = common.origins(inf, recv) | {recv}
+            prev = [x for x in inf.normal_calls() if x.dst and x.dst["l"] in srcs and x is not cur and "Iterator" in (x.static_args or "")]
+            if not prev:
+                break
+            cur = prev[0]
+    if dim_kinds and not scope:
+        raise CheckError("infer_schema_from_updates: no all/any row test found for the fixed-dimension decision")
+    for n_ in list(scope):
+        for c in F.fn(n_).normal_calls():
+            r = c.resolved
+            if r and r in F.bodies and r.startswith("value::Value::"):
+                scope.add(r)
+    for n_ in sorted(scope):
+        gg = F.fn(n_)
+        lens = [c for c in gg.normal_calls() if re.search(r"(Vec::<(f32|i8)>|<impl \[(f32|i8)\]>)::len$", c.static_args or "")]
+        for (bb, adt, pl, mm, other) in gg.enum_switches(VALUE):
+            tested |= {v for v in mm if v in dim_kinds or v.startswith("Vector")}
+    if dim_kinds:
+        miss = sorted(dim_kinds - tested)
+        ctx.site("fixed vector dimension kept only if every row agrees: row test covers %s" % sorted(dim_kinds), inf.where(), ok=not miss, tested=sorted(tested))
+        if miss:
+            ctx.violation(INFER + ":R-C12-d:dimension-test-skips-" + "+".join(miss), "the test that every row of a vector column has the first row's dimension does not look at %s values: such a column keeps a fixed dimension although its rows differ, the batch is written with mis-sliced lists (or cannot be written and the store no longer opens)" % "/".join(miss), inf.where())
     ctx.end_rule()
 
     # ---- e: JSON cannot carry non-finite floats
